@@ -7,16 +7,19 @@ from ..flow import (resolver, peel, root_local, guards_of, rel_fact, aggregates,
 from ..facts import AnchorMissing, op_const_int, op_const_str, op_local, op_place
 from ..symexec import SymExec, variant_name
 
-LEVEL = ("decides code-shape clauses of the FlatZinc front-end: no index is used after swap_remove "
-         "invalidated it (F1); no narrowing cast of model integers (F2); the builtin-name match maps "
-         "every supported name to the library constructor the FlatZinc specification demands, plain and "
-         "_reif variants agree, and the diagnostic name equals the matched name (F3, recovered from "
-         "MIR); sibling arms over the declaration kinds read the same fields (F4); result → status "
-         "line table (F5); every compile function's arity guard equals 1 + the largest argument "
-         "index it reads (F6); no model coefficient becomes the scale of a view unguarded (F7); "
-         "argument wiring of the linear / binary / element builtins and the hand-written CNFs of "
-         "xor / set_in_reif (F8). Does not decide the meaning of each decomposition, search "
-         "annotations or output projection")
+LEVEL = ('decides code-shape clauses of the FlatZinc front-end: no index is used after swap_remove '
+         'invalidated it (F1); no narrowing cast of model integers (F2); the builtin-name match maps '
+         'every supported name to the library constructor the FlatZinc specification demands, plain '
+         'and _reif variants agree, and the diagnostic name equals the matched name (F3, recovered '
+         'from MIR); sibling arms over the declaration kinds read the same fields (F4); result → '
+         "status line table (F5); every compile function's arity guard equals 1 + the largest argument"
+         ' index it reads (F6); no model coefficient becomes the scale of a view unguarded (F7); '
+         'argument wiring of the linear / binary / element builtins and the hand-written CNFs of xor /'
+         ' set_in_reif (F8). Domain::merge is the intersection of the two domains for every variant '
+         'pair, and the clauses posted for set_in_reif over an interval mean r ⇔ lb ≤ x ≤ ub (F9/F10, '
+         'decided on small windows); nothing is selected from one side before two parallel sequences '
+         'are zipped (F11). Does not decide the meaning of each decomposition, search annotations or '
+         'output projection')
 TECHNIQUE = "static analysis: table recovery from the name match, stale-index / cast / arity / divisor-guard rules over rustc MIR"
 
 WIDTH = {"i8": 8, "u8": 8, "i16": 16, "u16": 16, "i32": 32, "u32": 32, "i64": 64, "u64": 64,
